@@ -50,14 +50,17 @@ func VerifC33History() {
 	tw.Advance(time.Unix(0, now))
 	var items [3]c33Rec
 	nadd := 0
+	kindN := [6]string{"kind0", "kind1", "kind2", "kind3", "kind4", "kind5"}
+	gapN := [6]string{"gap0", "gap1", "gap2", "gap3", "gap4", "gap5"}
+	toN := [6]string{"timeout0", "timeout1", "timeout2", "timeout3", "timeout4", "timeout5"}
 	for s := 0; s < steps; s++ {
-		switch verifInt("kind", 0, 2) {
+		switch verifInt(kindN[s], 0, 2) {
 		case 0: // advance by an arbitrary gap (including more than a full revolution)
-			now += int64(verifInt("gap", 0, 200))
+			now += int64(verifInt(gapN[s], 0, 200))
 			tw.Advance(time.Unix(0, now))
 		case 1: // add with an arbitrary timeout (below the tick, above the span, zero, negative)
 			if nadd < 3 {
-				d := int64(verifInt("timeout", -5, 100))
+				d := int64(verifInt(toN[s], -5, 100))
 				tw.Add(nadd, time.Duration(d))
 				items[nadd] = c33Rec{added: true, tAdd: now, need: c33Need(d, span)}
 				nadd++
